@@ -22,6 +22,8 @@ package main
 //   apiman  W LOCK CHG SUB INS OUTS            api.APIServer.CreateRawTransaction
 //   signfail N                                 api SignRawTransaction of draft N with a wrong passphrase
 //   reserved W | elig W FROM | find W FROM AMOUNT | estsize W N M
+//   sums                                       the results of the create ops since the last `sums`
+//                                              (compared with the MODEL; the create ops themselves answer "done")
 //   judge                                      verdict of the SPEC (Lean, MW.Spec.TxBuild.judge) on every
 //                                              transaction / error returned since the last judge
 //   (FROM, CHG, SUB, INS, OUTS use "-" for empty; names are the symbolic names of wenv.go)
@@ -71,6 +73,7 @@ type txbExec struct {
 	hist   []string // op lines of the current history (for the judge batch)
 	res    []string // judgetx line to insert after hist[i] ("" = none)
 	judged int      // number of results already judged
+	sums   []string // summaries of the create ops since the last `sums`
 	drafts []*txbDraft
 }
 
@@ -85,7 +88,7 @@ func (x *txbExec) Reset() {
 		x.e.reset()
 	}
 	x.api = nil
-	x.hist, x.res, x.judged, x.drafts = nil, nil, 0, nil
+	x.hist, x.res, x.judged, x.drafts, x.sums = nil, nil, 0, nil, nil
 }
 func (x *txbExec) Close() {
 	if x.e != nil {
@@ -204,7 +207,11 @@ func (x *txbExec) Exec(a []string) string {
 	}
 	out, jt := x.op(e, a)
 	if jt != "" {
+		// a create op: its result is judged by the spec at the next `judge` and compared with the
+		// model at the next `sums`; the op itself only acknowledges
 		x.res[len(x.res)-1] = jt
+		x.sums = append(x.sums, out)
+		return "done"
 	}
 	return out
 }
@@ -777,6 +784,13 @@ func (x *txbExec) op(e *WEnv, a []string) (string, string) {
 		return strconv.FormatInt(sz, 10), ""
 	case a[0] == "judge" && len(a) == 1:
 		return x.judge(), ""
+	case a[0] == "sums" && len(a) == 1:
+		out := "-"
+		if len(x.sums) > 0 {
+			out = strings.Join(x.sums, " ; ")
+		}
+		x.sums = nil
+		return out, ""
 	}
 	// base ops of the ledger engine
 	return ledOp(e, a), ""
